@@ -22,6 +22,12 @@ def strain_field(rng, ntv, cls):
         a = rng.uniform(0.15, 0.4)
         e = numpy.array([a, a, 1 - 2 * a])[rng.permutation(3)]
         return numpy.tile(e, (ntv, 1))
+    if cls == "mirrored-along-the-volumes":
+        # two strain series run through the same values in opposite directions along the volume grid
+        a, d = float(rng.uniform(0.25, 0.33)), 0.06 / max(ntv - 1, 1)
+        e1 = a + d * numpy.arange(ntv)
+        e2 = e1[::-1].copy()
+        return numpy.stack([e1, e2, 1 - e1 - e2], axis=1)[:, rng.permutation(3)]
     if cls in ("crossing-at-a-grid-volume", "isotropic-at-one-volume"):
         # two (or all three) strain series coincide at exactly one grid volume and differ at every other one
         k0 = int(rng.integers(0, ntv))
@@ -124,9 +130,10 @@ def run(ctx):
 
 
 def _run(ctx, current, mon):
-    nspec = ctx.pick(10, 260)
+    nspec = ctx.pick(11, 264)
     classes = ["constant", "varying", "equal", "pairwise-equal", "near-degenerate:1e-3", "near-degenerate:1e-4",
-               "near-degenerate:1e-6", "near-degenerate:1e-8", "crossing-at-a-grid-volume", "isotropic-at-one-volume"]
+               "near-degenerate:1e-6", "near-degenerate:1e-8", "crossing-at-a-grid-volume", "isotropic-at-one-volume",
+               "mirrored-along-the-volumes"]
     for isp in range(nspec):
         case_id = f"spec{isp}"
         if not ctx.mine(isp, case_id):
